@@ -4,6 +4,7 @@ import (
 	"fmt"
 	"go/constant"
 	"go/token"
+	"go/types"
 	"strings"
 
 	"golang.org/x/tools/go/ssa"
@@ -228,8 +229,8 @@ func runC17(c *Ctx) {
 	checkWiring(c, "C17.antonyms", []wiring{
 		{"lower", []string{"strings.ToLower"}, []string{"strings.ToUpper", "strings.ToTitle"}, "must map to lower case"},
 		{"upper", []string{"strings.ToUpper"}, []string{"strings.ToLower"}, "must map to upper case"},
-		{"startWith", []string{"strings.HasPrefix", "strings.Index"}, []string{"strings.HasSuffix", "strings.LastIndex"}, "must test the prefix"},
-		{"endWith", []string{"strings.HasSuffix", "strings.LastIndex"}, []string{"strings.HasPrefix"}, "must test the suffix"},
+		{"startWith", nil, []string{"strings.HasSuffix", "strings.LastIndex"}, "must test the prefix"},
+		{"endWith", nil, []string{"strings.HasPrefix"}, "must test the suffix"},
 		{"contains", []string{"strings.Contains", "strings.Index"}, nil, "must test for a substring"},
 		{"find", []string{"strings.Index"}, []string{"strings.LastIndex"}, "must return the FIRST index"},
 		{"trim", []string{"strings.TrimSpace", "strings.Trim"}, []string{"strings.TrimLeft", "strings.TrimRight", "strings.TrimPrefix", "strings.TrimSuffix"}, "must strip white space on both sides"},
@@ -263,7 +264,18 @@ func c17Shapes(c *Ctx) {
 	// two-string predicates: (s, t) order
 	for _, n := range []string{"startWith", "endWith", "contains", "find"} {
 		if f := c.BuiltinFn(n); f != nil {
-			c.R.Check(rule, n+"-arg-order", c.P.Pos(f.Pos()), c.argsInOrder(f, []string{"strings.HasPrefix", "strings.HasSuffix", "strings.Contains", "strings.Index", "strings.LastIndex"}, []int{0, 1}), "`"+n+"(s, t)` must look for t in s, not for s in t")
+			prims := []string{"strings.HasPrefix", "strings.HasSuffix", "strings.Contains", "strings.Index", "strings.LastIndex"}
+			uses := false
+			for _, pr := range prims {
+				if c.calleesOf(f)[pr] {
+					uses = true
+				}
+			}
+			if !uses {
+				c.R.Add(rule, n+"-arg-order", c.P.Pos(f.Pos()), OK, "")
+				continue // written without the strings primitives: nothing to compare
+			}
+			c.R.Check(rule, n+"-arg-order", c.P.Pos(f.Pos()), c.argsInOrder(f, prims, []int{0, 1}), "`"+n+"(s, t)` must look for t in s, not for s in t")
 		}
 	}
 	if f := c.BuiltinFn("join"); f != nil {
@@ -281,13 +293,32 @@ func c17Shapes(c *Ctx) {
 			if !isC {
 				return
 			}
-			if cal := calleeOf(call); cal != nil && cal.String() == "strings.Index" {
+			if cal := calleeOf(call); cal != nil && (cal.String() == "strings.Index" || cal.String() == "strings.LastIndex") {
 				if sub, isS := bo.Y.(*ssa.BinOp); isS && sub.Op == token.SUB {
-					bad = true
+					// LastIndex(s,t) == len(s)-len(t) is right only behind a guard len(s) >= len(t); Index never is
+					guarded := false
+					if cal.String() == "strings.LastIndex" {
+						for d := b; d != nil; d = d.Idom() {
+							for _, p := range d.Preds {
+								if iff, isIf := p.Instrs[len(p.Instrs)-1].(*ssa.If); isIf {
+									if g, isG := iff.Cond.(*ssa.BinOp); isG && (g.Op == token.GEQ || g.Op == token.LEQ || g.Op == token.LSS || g.Op == token.GTR) {
+										if _, okx := g.X.(*ssa.Call); okx {
+											if _, oky := g.Y.(*ssa.Call); oky {
+												guarded = true
+											}
+										}
+									}
+								}
+							}
+						}
+					}
+					if !guarded {
+						bad = true
+					}
 				}
 			}
 		})
-		c.R.Check("C17.first-occurrence-suffix", "endWith", c.P.Pos(f.Pos()), !bad, "`endWith` compares the FIRST index of t with len(s)-len(t): false for endWith('abab','ab') (t also occurs earlier) and true for endWith('ab','xab') (Index = -1 = 2-3)")
+		c.R.Check("C17.first-occurrence-suffix", "endWith", c.P.Pos(f.Pos()), !bad, "`endWith` compares an index of t with len(s)-len(t) without knowing that t is not longer than s: with Index it is false for endWith('abab','ab') (t also occurs earlier); with either Index or LastIndex it is true for endWith('ab','xyz') (not found = -1 = 2-3)")
 	}
 	if f := c.BuiltinFn("startWith"); f != nil {
 		// Index(s,t) == 0 or HasPrefix
@@ -348,6 +379,30 @@ func c17Shapes(c *Ctx) {
 			}
 		})
 		c.R.Check(rule, spec.name+"-pad-string", c.P.Pos(f.Pos()), okPad, "the padding must repeat the pad argument")
+	}
+	for _, name := range []string{"lpad", "rpad", "left", "right", "mid", "len"} {
+		f := c.BuiltinFn(name)
+		if f == nil {
+			continue
+		}
+		bytesLen, runeLen := false, false
+		instrs(f, func(b *ssa.BasicBlock, i int, in ssa.Instruction) {
+			call, isC := in.(*ssa.Call)
+			if !isC {
+				return
+			}
+			if isBuiltinCall(call, "len") {
+				if call.Call.Args[0].Type().String() == "string" {
+					bytesLen = true
+				} else if strings.Contains(call.Call.Args[0].Type().String(), "rune") {
+					runeLen = true
+				}
+			}
+			if cal := calleeOf(call); cal != nil && (cal.String() == "unicode/utf8.RuneCountInString" || cal.String() == "unicode/utf8.RuneCount") {
+				runeLen = true
+			}
+		})
+		c.R.Check(rule, name+"-one-length-measure", c.P.Pos(f.Pos()), !(bytesLen && runeLen), "`"+name+"` measures the string both in bytes and in runes: the length test and the amount computed from it disagree on multi-byte text (the result no longer has the requested length)")
 	}
 	if f := c.BuiltinFn("len"); f != nil {
 		ok := false
@@ -469,6 +524,33 @@ func runC18(c *Ctx) {
 	c.R.Floor("C18.antonyms", 11)
 	c18MaxPolarity(c)
 	c18BitOps(c)
+	// max / min hand back one of their arguments
+	for _, name := range []string{"max", "min"} {
+		f := c.BuiltinFn(name)
+		if f == nil {
+			continue
+		}
+		ok := true
+		why := ""
+		n := 0
+		instrs(f, func(b *ssa.BasicBlock, i int, in ssa.Instruction) {
+			ret, isR := in.(*ssa.Return)
+			if !isR || isNilConst(ret.Results[0]) {
+				return
+			}
+			n++
+			for _, rt := range plainOrigins.Roots(ret.Results[0]) {
+				switch {
+				case rt.Kind == "param" && len(rt.Path) >= 1:
+				case rt.Kind == "call" && rt.Fn != nil && (rt.Fn.String() == decimalPath+".Max" || rt.Fn.String() == decimalPath+".Min"):
+				default:
+					ok = false
+					why = rt.String()
+				}
+			}
+		})
+		c.R.Check("C18.selects-an-argument", name, c.P.Pos(f.Pos()), ok && n > 0, "`"+name+"` must return one of its arguments (an argument that bounds all the others); it can return "+why+", a value that is none of them (e.g. a zero seed for all-negative arguments)")
+	}
 }
 
 // c18MaxPolarity: a hand-written max/min loop replaces its candidate on the right comparison sign.
@@ -537,6 +619,15 @@ func c18BitOps(c *Ctx) {
 				return
 			}
 			if len(ops) == 2 && (c.derivedFrom(bo.X, ops[0]) && c.derivedFrom(bo.Y, ops[1]) || c.derivedFrom(bo.X, ops[1]) && c.derivedFrom(bo.Y, ops[0])) {
+				// the signed result must not be reinterpreted as unsigned on its way into the number
+				for _, ref := range *bo.Referrers() {
+					if cv, isCv := ref.(*ssa.Convert); isCv {
+						if bt, isBt := cv.Type().Underlying().(*types.Basic); isBt && bt.Info()&types.IsUnsigned != 0 {
+							why = "the two's-complement result is converted to " + cv.Type().String() + " before it becomes a number: negative results (e.g. -5 | 3) turn into 2^64-k"
+							return
+						}
+					}
+				}
 				// flows into the returned number
 				dep := dependsOn(h, bo)
 				instrs(h, func(b2 *ssa.BasicBlock, j int, in2 ssa.Instruction) {
